@@ -95,6 +95,9 @@ def judge_same_map(prop: str, mon: str, where: str, before: Any, after: Any, **c
     if not dense.is_furax(before) or not dense.is_furax(after):
         LOG.skipped(mon, 'foreign')
         return
+    if not dense.in_domain(before):
+        LOG.skipped(mon, 'out-of-domain:dtype-unavailable')
+        return
     for side in ('in_structure', 'out_structure'):
         v = structure_verdict(getattr(before, side)(), getattr(after, side)())
         if v != 'equal':
@@ -110,13 +113,16 @@ def judge_same_map(prop: str, mon: str, where: str, before: Any, after: Any, **c
     try:
         mb = dense.matrix(before)
     except OracleError as exc:
+        if str(exc) in ('too-large', 'non-real-dtype', 'dtype-unavailable'):
+            LOG.skipped(mon, 'out-of-domain:' + str(exc))
+            return
         LOG.skipped(mon, 'oracle-before:' + str(exc)[:80], dense.describe(before))
         return
     try:
         ma = dense.matrix(after)
     except OracleError as exc:
         if str(exc) in ('too-large', 'non-real-dtype', 'dtype-unavailable'):
-            LOG.skipped(mon, 'oracle-after:' + str(exc))
+            LOG.skipped(mon, 'out-of-domain:' + str(exc))
             return
         # the original could be applied, the rewritten one cannot: the rewrite changed behaviour
         LOG.evaluated(mon)
@@ -308,6 +314,9 @@ def judge_adjoint(prop: str, mon: str, where: str, op: Any, opt: Any) -> None:
         LOG.evaluated(mon)
         LOG.violation(prop, mon, f'{where}/not-an-operator', repr(type(opt)), expr=dense.describe(op))
         return
+    if not dense.in_domain(op):
+        LOG.skipped(mon, 'out-of-domain:dtype-unavailable')
+        return
     for mine, theirs in (('in_structure', 'out_structure'), ('out_structure', 'in_structure')):
         v = structure_verdict(getattr(opt, mine)(), getattr(op, theirs)())
         if v != 'equal':
@@ -321,13 +330,16 @@ def judge_adjoint(prop: str, mon: str, where: str, op: Any, opt: Any) -> None:
     try:
         m = dense.matrix(op)
     except OracleError as exc:
+        if str(exc) in ('too-large', 'non-real-dtype', 'dtype-unavailable'):
+            LOG.skipped(mon, 'out-of-domain:' + str(exc))
+            return
         LOG.skipped(mon, 'oracle-operand:' + str(exc)[:80])
         return
     try:
         mt = dense.matrix(opt)
     except OracleError as exc:
         if str(exc) in ('too-large', 'non-real-dtype', 'dtype-unavailable'):
-            LOG.skipped(mon, 'oracle-result:' + str(exc))
+            LOG.skipped(mon, 'out-of-domain:' + str(exc))
             return
         LOG.evaluated(mon)
         LOG.violation(prop, mon, f'{where}/result-not-applicable', str(exc)[:300],
@@ -410,6 +422,9 @@ def h_mv(orig: Any, self: Any, x: Any) -> Any:
 
     def judge() -> None:
         # the input must match in_structure (shape/dtype), else the call is outside the property
+        if not dense.in_domain(self):
+            LOG.skipped(mon, 'out-of-domain:dtype-unavailable')
+            return
         if not dense.struct_eq_loose(dense.struct_of(x), self.in_structure()):
             LOG.skipped(mon, 'input-not-in-structure')
             return
@@ -478,6 +493,9 @@ def judge_inverse(mon: str, where: str, op: Any, inv: Any) -> None:
     if not isinstance(inv, lx.AbstractLinearOperator):
         LOG.evaluated(mon)
         LOG.violation('C06', mon, f'{where}/not-an-operator', repr(type(inv)), expr=dense.describe(op))
+        return
+    if not dense.in_domain(op):
+        LOG.skipped(mon, 'out-of-domain:dtype-unavailable')
         return
     for side, other in (('in_structure', 'out_structure'), ('out_structure', 'in_structure')):
         v = structure_verdict(getattr(inv, side)(), getattr(op, other)())
@@ -590,6 +608,9 @@ def judge_arith(mon: str, where: str, kind: str, left: Any, right: Any, result: 
         LOG.evaluated(mon)
         LOG.violation('C02', mon, f'{where}/not-an-operator', repr(type(result)))
         return
+    if not dense.in_domain(*(o for o in (left, right, result) if isop(o))):
+        LOG.skipped(mon, 'out-of-domain:dtype-unavailable')
+        return
     ml = dense.matrix(left) if isop(left) else None
     mr = dense.matrix(right) if isop(right) else None
     if kind in ('mul', 'div'):
@@ -609,7 +630,7 @@ def judge_arith(mon: str, where: str, kind: str, left: Any, right: Any, result: 
         got = dense.matrix(result)
     except OracleError as exc:
         if str(exc) in ('too-large', 'non-real-dtype', 'dtype-unavailable'):
-            LOG.skipped(mon, 'oracle-result:' + str(exc))
+            LOG.skipped(mon, 'out-of-domain:' + str(exc))
             return
         LOG.evaluated(mon)
         LOG.violation('C02', mon, f'{where}/result-not-applicable', str(exc)[:300],
